@@ -220,7 +220,8 @@ func (r *Reader) eachByte(b byte) {
 				}
 			*/
 			r.state = readerStateClean
-			if r.HandleSysex {
+			// a sysex that does not fit into the buffer (including the closing F7) is dropped
+			if r.HandleSysex && r.sysexlen < len(r.sysexBf) {
 				r.sysexBf[r.sysexlen] = b
 				r.sysexlen++
 				//go
@@ -247,6 +248,13 @@ func (r *Reader) eachByte(b byte) {
 		}
 
 		if r.HandleSysex {
+			if r.sysexlen >= len(r.sysexBf) {
+				// sysex is larger than the buffer: drop it and ignore the rest of it
+				r.sysexBf = nil
+				r.sysexlen = 0
+				r.state = readerStateWithinUnknown
+				return
+			}
 			r.sysexBf[r.sysexlen] = b
 			r.sysexlen++
 		}
